@@ -5,7 +5,7 @@ import json
 
 from vcommon import gz, glist, gbool, gopt
 
-EMBED = ["direct", "list", "dict", "nested", "nested_list", "pre", "pre_task", "init", "explicit"]
+EMBED = ["direct", "falsy", "list", "dict", "nested", "nested_list", "pre", "pre_task", "init", "explicit"]
 
 # the three directed schedules of DESIGN section 7 (#2, #3, #4); the schedule is a prefix, the run
 # continues with the run's PRNG
@@ -52,19 +52,23 @@ def gen_workload(rng, profile="c06"):
             spec = dict(cls=src["cls"], name=src["name"], embed=[list(e) for e in src["embed"]],
                         copy_of=src.get("copy_of") if src.get("copy_of") is not None else i)
         else:
-            embed, direct = [], False
+            embed, used = [], set()
             for k in range(j):
                 if rng.random() < pdep and len(embed) < 3:
-                    hows = [h for h in EMBED if not (h == "direct" and direct)]
+                    # "direct" and "falsy" each fill one parameter of the task: at most once per job
+                    hows = [h for h in EMBED if h not in used]
                     if jobs[k]["cls"] != "VTask" or jobs[k].get("copy_of") is not None:
                         hows.remove("pre_task")
-                    how = rng.choice(hows if profile == "c04" else hows + ["direct", "list"] * 2 if not direct else hows)
-                    if how == "direct":
-                        direct = True
+                    extra = [h for h in ("direct", "list") if h in hows] * 2
+                    if profile == "c04":
+                        extra = [h for h in ("direct", "falsy", "nested") if h in hows]
+                    how = rng.choice(hows + extra)
+                    if how in ("direct", "falsy"):
+                        used.add(how)
                     if profile == "c04" and how not in ("explicit", "pre_task") and rng.random() < 0.3:
                         how += "_obj"
                     embed.append([k, how])
-            spec = dict(cls=rng.choice(["VTask", "VTask", "VTaskOut"]), name=f"t{j}", embed=embed, copy_of=None)
+            spec = dict(cls=rng.choice(["VTask", "VTask", "VTaskOut", "VTaskBag"]), name=f"t{j}", embed=embed, copy_of=None)
         toks = []
         for t, tot in enumerate(tokens):
             if rng.random() < 0.6:
@@ -298,13 +302,39 @@ def oracle_c07(w, trace, report):
             if o["launches"] != 1 or o["result"] != should:
                 report(f"C07:independent-affected:{should}-got-{o['result']}-launches-{o['launches']}",
                        f"job {j} (upstream all DONE) launches={o['launches']} result={o['result']}")
-    # leaving the experiment reports failure iff some job failed (looked at when wait() completes)
+    # at rest (nothing ready, nothing pending): every dependent of a failed job has been cancelled, every
+    # other job has run to completion, and leaving the experiment is not blocked
+    for si, s in enumerate(trace["steps"]):
+        sn = s["snap"]
+        if sn["pending"]:
+            continue
+        res_now = [None if o is None or not o["registered"] else o["result"] for o in sn["jobs"]] + [None] * njobs
+        memo_now = {}
+        for j, o in enumerate(sn["jobs"]):
+            if o is None or not o["registered"] or o["result"] is not None:
+                continue
+            if effective_failed_ancestor(w, trace, res_now, j, memo_now):
+                report(f"C07:dependent-of-failed-job-not-cancelled-at-rest:{o['state']}",
+                       f"after step {si} nothing is pending; job {j} has a failed ancestor and is {o['state']} for ever")
+            else:
+                report(f"C07:job-not-completed-at-rest:{o['state']}",
+                       f"after step {si} nothing is pending; job {j} (no failed ancestor) is {o['state']} for ever")
+        if sn["wait"] == "blocked":
+            report("C07:exit-blocked-at-rest",
+                   f"after step {si} nothing is pending and leaving the experiment is blocked "
+                   f"(unfinishedJobs={sn['unfinished']}): neither failure nor success is reported")
+    # leaving the experiment reports failure iff some job failed (looked at when wait() completes),
+    # and only once every submitted job has run to completion or has been cancelled
     prev_wait = "none"
     for s in trace["steps"]:
         sn = s["snap"]
         if sn["wait"] in ("returned", "raised") and (s["act"][0] in ("wait", "exit") or prev_wait == "blocked"):
             anyerr = any(o is not None and o["registered"] and o["result"] == "ERROR" for o in sn["jobs"])
             allfinal = all(o is None or not o["registered"] or o["result"] is not None for o in sn["jobs"])
+            if not allfinal:
+                running = [j for j, o in enumerate(sn["jobs"]) if o is not None and o["registered"] and o["result"] is None]
+                report("C07:experiment-left-before-jobs-completed",
+                       f"{s['act'][0]}() completed ({sn['wait']}) while jobs {running} had not run to completion")
             if sn["wait"] == "raised" and not anyerr and allfinal:
                 report("C07:failure-reported-without-failed-job", "FailedExperiment raised, no job ended ERROR")
             if sn["wait"] == "returned" and anyerr:
